@@ -28,9 +28,8 @@ def get_reserved_words():
 
     reserved = RESERVED_KEYWORDS
     for word in SQLLexer.tokens | MindsDBLexer.tokens:
-        if '_' not in word:
-            # exclude combinations
-            reserved.add(word)
+        # names of combined tokens (GROUP_BY) are not words of the language but some are (PRIMARY_KEY, ML_ENGINE)
+        reserved.add(word)
     return reserved
 
 
